@@ -44,7 +44,25 @@ class Path:
         return p
 
 
+class Opaque(int):
+    """A value the reference EVM knows concretely but the library, by design, does not resolve to a constant: the
+    result of an operator outside its 21 foldable ones (SIGNEXTEND, BYTE, ADDMOD, MULMOD), of SLOAD / MLOAD, or of
+    anything computed from such a value. It behaves as the int it is; only JUMP / JUMPI look at the distinction - the
+    reference makes no prediction about a jump whose target the library sees as symbolic."""
+    __slots__ = ()
+
+
+NOT_FOLDED = {"SIGNEXTEND", "BYTE", "ADDMOD", "MULMOD"}
+
+
 def _alu(name, a, quirks=(), flags=None):
+    r = _alu_value(name, a, quirks, flags)
+    if r is not None and (name in NOT_FOLDED or any(isinstance(x, Opaque) for x in a)):
+        return Opaque(r)
+    return r
+
+
+def _alu_value(name, a, quirks=(), flags=None):
     """a: operands in pop order. Returns int or None. `quirks` selects the library's known deviations (used only to
     attribute a mismatch to a recorded finding, never to judge)."""
     if any(x is None for x in a):
@@ -169,7 +187,8 @@ def enumerate_paths(code, max_paths=4096, max_steps=100000, quirks=()):
                 st.append(None)
             elif name == "MLOAD":
                 off = st.pop()
-                st.append(p.memory.get(off, 0) if off is not None else None)
+                v = p.memory.get(off, 0) if off is not None else None
+                st.append(Opaque(v) if v is not None else None)
             elif name == "MSTORE":
                 off = st.pop()
                 val = st.pop()
@@ -181,7 +200,8 @@ def enumerate_paths(code, max_paths=4096, max_steps=100000, quirks=()):
             elif name == "SLOAD":
                 key = st.pop()
                 p.sloads.append(key)
-                st.append(p.storage.get(key, 0) if key is not None else None)
+                v = p.storage.get(key, 0) if key is not None else None
+                st.append(Opaque(v) if v is not None else None)
             elif name == "SSTORE":
                 key = st.pop()
                 val = st.pop()
@@ -195,6 +215,12 @@ def enumerate_paths(code, max_paths=4096, max_steps=100000, quirks=()):
                 p.attempts.append((pc, "JUMP", target))
                 if target is None:
                     p.end = "symbolic-jump"
+                    done.append(p)
+                    break
+                if isinstance(target, Opaque):
+                    # concrete here, symbolic for the library: no prediction from this point on
+                    p.flags.add("opaque-jump-target")
+                    p.end = "opaque-jump"
                     done.append(p)
                     break
                 if target >= n:
@@ -214,6 +240,11 @@ def enumerate_paths(code, max_paths=4096, max_steps=100000, quirks=()):
                 target = st.pop()
                 st.pop()
                 p.attempts.append((pc, "JUMPI", target))
+                if isinstance(target, Opaque):
+                    p.flags.add("opaque-jump-target")
+                    p.decisions += "F"
+                    pc = nxt
+                    continue
                 if target is None:
                     err = (pc, "NoConcreteJumpDestination")
                 elif target >= n:
